@@ -180,7 +180,7 @@ static Plan gen_low(uint64_t seed, const Op &opts) {
     static const int lB[][2] = {{2, 10}, {3, 7}, {1, 16}, {2, 8}, {4, 8}, {3, 10}, {2, 16}, {1, 8}, {8, 4}, {16, 2}, {4, 5}, {1, 20}, {32, 1}, {6, 5}};
     int i = (int) r.below(14);
     while (opts.has("xBmax") && lB[i][1] > opts.geti("xBmax")) i = (int) r.below(14);
-    p.cfg.seti("xk", r.bern(0.3) ? (r.bern(0.3) ? 3 : 2) : 1).seti("xl", lB[i][0]).seti("xB", lB[i][1]);
+    p.cfg.seti("xk", r.bern(0.3) ? 2 : 1)   /* k in {1,2} as the properties quantify; k = 3 was tried: the nayuki debug build's accuracy assertion (known finding) then also fires at Bgbit = 10 */.seti("xl", lB[i][0]).seti("xB", lB[i][1]);
     static const double xa[] = {0, 0, 1e-9, 2.98023223876953125e-08, 1e-6};
     p.cfg.setd("xalpha", xa[r.below(5)]);
     std::string only = opts.gets("ops", "");
